@@ -161,11 +161,11 @@ theorem post_start_skipped_only_when_detached {cap named s} (h : Reached cap nam
   -- invariant: not detached and past `started_tx.send` ⇒ `post_start` is in the log
   have key : ∀ s, (run (St.init cap named) evs = some s) →
       (s.detached = false → (match s.pc with
-        | .init | .startFailed | .preStarted | .postStart => True
+        | .init | .failRelease | .failReport | .failReturn | .startFailed | .preStarted | .postStart => True
         | _ => Obs.hook .postStart true ∈ s.log ∨ Obs.hook .postStart false ∈ s.log)) := by
     intro s hr
     refine run_induct (P := fun s => s.detached = false → (match s.pc with
-        | .init | .startFailed | .preStarted | .postStart => True
+        | .init | .failRelease | .failReport | .failReturn | .startFailed | .preStarted | .postStart => True
         | _ => Obs.hook .postStart true ∈ s.log ∨ Obs.hook .postStart false ∈ s.log)) ?_ ?_ hr
     · simp [St.init]
     · intro s e s' hi hs
@@ -256,6 +256,31 @@ theorem registration_follows_lifecycle {cap named s} (h : Reached cap named s) :
   · intro ht
     rw [ht] at hk
     cases hpc : s.pc <;> simp_all [tokOk, Pc.terminal]
+
+/-- Failed start: the registration is released *before* the failure is sent to the spawner
+(`reg.take()` precedes `started_tx.send(Err(error))` in `Cluster::start`), so whenever the spawner can observe
+`SpawnError::Start` the name is already free -- whatever still happens afterwards (dropping the failed actor
+value, the receiver, returning from the task). -/
+theorem name_free_when_start_failure_observed {cap named s} (h : Reached cap named s)
+    (hrep : s.startReported = true) :
+    (s.tok = .unnamed ∨ s.tok = .dropped) ∧ (s.pc = .failReturn ∨ s.pc = .startFailed) := by
+  obtain ⟨evs, hr⟩ := h
+  have hk : InvK s := run_induct (invK_init cap named) invK_step hr
+  have hp : s.startReported = true → (s.pc = .failReturn ∨ s.pc = .startFailed) := by
+    refine run_induct (P := fun s => s.startReported = true → (s.pc = .failReturn ∨ s.pc = .startFailed)) ?_ ?_ hr
+    · simp [St.init]
+    · intro s e s' hi hs
+      cases e <;> simp only [step] at hs <;> step_cases hs <;> simp_all [St.obs]
+  have hpc := hp hrep
+  unfold InvK at hk
+  refine ⟨?_, hpc⟩
+  rcases hpc with hpc | hpc <;> (rw [hpc] at hk; cases ht : s.tok <;> simp_all [tokOk])
+
+/-- … and the failure is reported only after the release step, never before. -/
+theorem start_failure_reported_after_release (s s' : St) (hs : step s .reportFailure = some s') :
+    s.pc = .failReport ∧ s'.startReported = true := by
+  simp only [step] at hs
+  step_cases hs <;> simp_all
 
 /-- Registry: for every sequence of reserve / activate / drop that ownership allows, the map is the image of
 the live registrations, no two of which share a name or an owner; `activate` never hits its `expect`. -/
